@@ -41,7 +41,7 @@ def run(rep: Report, tier: str) -> None:
     ev = ("fld", g, "GainLoss.__taxable_event")
 
     # ---------------------------------------------------------------- C04.a
-    r = rep.rule("C04.a", "closed-form figures: cost basis, proceeds (multiply first, divide last), gain", floor=6)
+    r = rep.rule("C04.a", "closed-form figures: cost basis, proceeds (multiply first, divide last), gain", floor=6, follows_calls=True)  # norm.inline enters every property / helper the three figures read
     cb_fi = prog.func(gl.module, "GainLoss.fiat_cost_basis")
     pr_fi = prog.func(gl.module, "GainLoss.taxable_event_fiat_amount_with_fee_fraction")
     gn_fi = prog.func(gl.module, "GainLoss.fiat_gain")
